@@ -143,6 +143,8 @@ def core_from_sx(prog):
 
 
 def core_from_ir(circ):
+    import numbers
+
     from jaqalpaq.core import (BlockStatement, LoopStatement, GateStatement, Macro, Register, NamedQubit, Constant,
                                Parameter)
 
@@ -153,7 +155,11 @@ def core_from_ir(circ):
         if isinstance(v, bool):
             raise OracleError("bool value %r" % (v,))
         if isinstance(v, (int, float)):
-            return v
+            return int(v) if isinstance(v, int) else float(v)
+        if isinstance(v, numbers.Integral):  # e.g. numpy integers handed to the builder: the same number
+            return int(v)
+        if isinstance(v, numbers.Real):
+            return float(v)
         if isinstance(v, Constant):
             return ("let", v.name)
         if isinstance(v, Parameter):
@@ -192,7 +198,7 @@ def core_from_ir(circ):
             return ("item", base, val(a.alias_index))
         if isinstance(a, Register):
             return reg(a)
-        if isinstance(a, (Constant, Parameter, int, float)):
+        if isinstance(a, (Constant, Parameter, int, float, numbers.Real)):
             return val(a)
         raise OracleError("unknown argument %r" % (a,))
 
